@@ -56,6 +56,7 @@ class PathEval:
         self.store = {}
         self.self_class = self_class
         self.log = []  # (node id, target text, Poly)
+        self.effects = []  # (node id, base canon, index canon evaluated in the current state, Poly) for subscript stores
 
     def scope(self) -> Scope:
         sc = Scope(None, self.mi, self.env, self.qual, self_class=self.self_class)
@@ -74,6 +75,14 @@ class PathEval:
                 self._assign_target(el, self.nf._project(val, (i,)), nid)
         elif isinstance(t, (ast.Attribute, ast.Subscript)):
             key = self.target_key(t)
+            if isinstance(t, ast.Subscript):
+                # the location in terms of the *entry state* (index evaluated through the store), for effect summaries
+                try:
+                    base_v = self.ev(t.value).canon()
+                    idx_v, _ = self.nf._slice(t.slice, self.scope(), None, 0)
+                    self.effects.append((nid, base_v, idx_v, val))
+                except Exception:
+                    self.effects.append((nid, key, None, val))
             self.store[key] = val
             self.log.append((nid, key, val))
         elif isinstance(t, ast.Starred):
@@ -110,6 +119,12 @@ class PathEval:
                 v = self.nf._binop_polys(cur, self.ev(s.value), s.op)
                 self._assign_target(s.target, v, nid)
             elif isinstance(s, ast.Expr):
+                c = s.value
+                # list growth through methods is an assignment in disguise: xs.append(v) == xs = xs + [v], xs.extend(it) == xs = xs + it
+                if isinstance(c, ast.Call) and isinstance(c.func, ast.Attribute) and c.func.attr in ("append", "extend") and isinstance(c.func.value, ast.Name) and c.func.value.id in self.env and len(c.args) == 1 and not c.keywords:
+                    cur = self.env[c.func.value.id]
+                    add = self.ev(ast.List(elts=[c.args[0]], ctx=ast.Load())) if c.func.attr == "append" else self.ev(c.args[0])
+                    self._assign_target(ast.Name(id=c.func.value.id, ctx=ast.Store()), self.nf._binop_polys(cur, add, ast.Add()), nid)
                 # calls for effect: record (rules may inspect the log)
                 self.log.append((nid, "<expr>", self.ev(s.value)))
         elif n.kind == "for" and label is True:
